@@ -508,3 +508,632 @@ def c11(ctx):
                             txt = "".join(ops)
                             ctx.nontrivial.add(hash(txt))
                             ctx.add_sample([json.loads(x) for x in ops[:12]])
+
+
+# ---------------------------------------------------------------------------
+# C08 (and the UDP clauses of C13 / C20): UDP
+
+UDP_NODES = {"N1": ["A1", "A2"], "N2": ["B1"], "N3": ["C1"]}
+UDP_SOCKS = {"s1": "N1", "s2": "N1", "s3": "N3", "r1": "N2", "r2": "N2", "r3": "N1"}
+UDP_HOME = {"s1": "A1", "s2": "A2", "s3": "C1", "r1": "B1", "r2": "B1", "r3": "A1"}
+
+
+def udp_topo(rng, nat=None, caps=False, small=False):
+    addrs = {}
+    for a in ["A1", "A2", "B1", "C1"]:
+        addrs[a] = {"nat": "", "out_lat": rng.choice([0, 1, 7, 100, rng.randint(0, 100000)]) if not small else 1,
+                    "in_lat": rng.choice([0, 1, 50, rng.randint(0, 100000)]) if not small else 1,
+                    "in_cap": (rng.choice([0, 0, 0, 3000, 70000]) if caps else 0), "out_cap": 0}
+    if nat is None:
+        nat = rng.choice(["none", "one", "shared"])
+    if nat in ("one", "shared"):
+        addrs["A2"]["nat"] = "X1"
+    if nat == "shared":
+        addrs["C1"]["nat"] = "X1"
+    mtu = []
+    for (a, b) in [("A1", "B1"), ("A2", "B1"), ("C1", "B1"), ("B1", "A1")]:
+        if rng.random() < 0.5:
+            mtu.append({"a": a, "b": b, "m": rng.choice([1, 100, 500, 1475, 3000])})
+    return {"tick_ns": 10, "dmtu": rng.choice([1475, 1475, 600]), "addrs": addrs, "mtu": mtu,
+            "nodes": UDP_NODES, "socks": UDP_SOCKS}
+
+
+def rand_udp_program(rng):
+    kind = rng.random()
+    ops = []
+    t = 0
+    port = {"s1": 5001, "s2": 5002, "s3": 5003, "r1": 7000, "r2": 7001, "r3": 7002}
+    if kind < 0.12:
+        # truncation storm: big datagrams read with tiny buffers
+        topo = udp_topo(rng, caps=False)
+        ops += [{"t": 0, "op": "bind", "s": "s1", "a": "A1", "p": 5001}, {"t": 0, "op": "bind", "s": "r1", "a": "B1", "p": 7000},
+                {"t": 0, "op": "recv", "s": "r1", "style": rng.choice(["recv", "recv_from", "wait"]), "bufs": [rng.choice([1, 2, 10])], "auto": True}]
+        n = rng.randint(5, 9)
+        for k in range(n):
+            t += 70000 + rng.randint(0, 1000)
+            ops.append({"t": t, "op": "send", "s": "s1", "dst": ["B1", 7000], "bufs": [rng.choice([60000, 65000, 50000])]})
+        return {"topo": topo, "ops": ops}
+    if kind < 0.24:
+        # burst against a small send buffer
+        topo = udp_topo(rng, caps=rng.random() < 0.5)
+        sb = rng.choice([100, 1000, 2000, 5000, 30000])
+        ops += [{"t": 0, "op": "bind", "s": "s1", "a": "A1", "p": 5001}, {"t": 0, "op": "bind", "s": "r1", "a": "B1", "p": 7000},
+                {"t": 0, "op": "sndbuf", "s": "s1", "n": sb},
+                {"t": 0, "op": "recv", "s": "r1", "style": "recv_from", "bufs": [2000], "auto": True}]
+        if rng.random() < 0.5:
+            ops.append({"t": 0, "op": "df", "s": "s1", "v": True})
+        for k in range(rng.randint(5, 40)):
+            t += rng.choice([0, 0, 0, 1, 10, rng.randint(0, 400), rng.randint(0, 3000)])
+            ops.append({"t": t, "op": "send", "s": "s1", "dst": ["B1", rng.choice([7000, 7000, 7009])],
+                        "bufs": [rng.choice([1, 50, 100, 472, 600, 1400, 1476, 3000])]})
+        return {"topo": topo, "ops": ops}
+    topo = udp_topo(rng, caps=rng.random() < 0.3)
+    bound = {}
+    isopen = {s: True for s in UDP_SOCKS}
+    for s in UDP_SOCKS:
+        if rng.random() < 0.85:
+            ops.append({"t": 0, "op": "bind", "s": s, "a": UDP_HOME[s], "p": port[s]})
+            bound[s] = (UDP_HOME[s], port[s])
+    for s in ("r1", "r2", "r3", "s1"):
+        if s in bound and rng.random() < 0.8:
+            nb = rng.randint(1, 3)
+            ops.append({"t": 0, "op": "recv", "s": s, "style": rng.choice(["recv", "recv_from", "wait"]),
+                        "bufs": [rng.choice([1, 3, 20, 100, 2000]) for _ in range(nb)], "auto": rng.random() < 0.8})
+    for s in ("s1", "s2", "s3"):
+        if rng.random() < 0.3:
+            ops.append({"t": 0, "op": "df", "s": s, "v": rng.random() < 0.7})
+    eps = [("B1", 7000), ("B1", 7001), ("A1", 7002), ("A1", 5001), ("B1", 7099)]
+    for k in range(rng.randint(3, 40)):
+        t += rng.choice([0, 0, 1, 5, 100, rng.randint(0, 50000), rng.randint(0, 300000)])
+        r = rng.random()
+        if r < 0.62:
+            s = rng.choice(["s1", "s2", "s3", "r1"])
+            if s not in bound or not isopen[s]:
+                continue
+            nb = rng.choice([1, 1, 2, 3])
+            sizes = [rng.choice([0, 1, 2, 10, 100, 500, 1400, 1476, 4000, 30000]) for _ in range(nb)]
+            if rng.random() < 0.03:
+                sizes = [65535] if rng.random() < 0.5 else [65536]
+            if rng.random() < 0.03:
+                sizes = [0]
+            d = rng.choice(eps)
+            ops.append({"t": t, "op": "send", "s": s, "dst": [d[0], d[1]], "bufs": sizes})
+        elif r < 0.72:
+            s = rng.choice(["r1", "r2", "r3"])
+            if isopen[s]:
+                ops.append({"t": t, "op": "close", "s": s})
+                isopen[s] = False
+                bound.pop(s, None)
+        elif r < 0.86:
+            s = rng.choice(["r1", "r2", "r3"])
+            if not isopen[s]:
+                ops.append({"t": t, "op": "open", "s": s})
+                isopen[s] = True
+            if s not in bound:
+                a, p = rng.choice([(UDP_HOME[s], port[s]), (UDP_HOME[s], 7000 if UDP_HOME[s] == "B1" else 7002)])
+                if (a, p) not in bound.values():
+                    ops.append({"t": t, "op": "bind", "s": s, "a": a, "p": p})
+                    bound[s] = (a, p)
+                    if rng.random() < 0.8:
+                        ops.append({"t": t, "op": "recv", "s": s, "style": rng.choice(["recv", "recv_from", "wait"]),
+                                    "bufs": [rng.choice([1, 20, 2000])], "auto": True})
+        elif r < 0.9:
+            s = rng.choice(["s1", "s2"])
+            ops.append({"t": t, "op": "df", "s": s, "v": rng.random() < 0.5})
+    return {"topo": topo, "ops": ops}
+
+
+def long_drain_program(rng, n):
+    """A reader that keeps its queue drained must lose nothing, however long the history."""
+    topo = udp_topo(rng, nat="one", caps=False)
+    ops = [{"t": 0, "op": "bind", "s": "s2", "a": "A2", "p": 5002}, {"t": 0, "op": "bind", "s": "r1", "a": "B1", "p": 7000},
+           {"t": 0, "op": "recv", "s": "r1", "style": rng.choice(["recv", "recv_from", "wait"]), "bufs": [100], "auto": True}]
+    t = 0
+    for k in range(n):
+        t += rng.choice([100, 150, 1000])
+        ops.append({"t": t, "op": "send", "s": "s2", "dst": ["B1", 7000], "bufs": [rng.choice([2, 30, 64])]})
+    return {"topo": topo, "ops": ops}
+
+
+def rand_udp_programs(seed, n, path):
+    import random
+    rng = random.Random(seed)
+    with open(path, "w") as f:
+        for k in range(n):
+            if k % 1000 == 1:
+                f.write(json.dumps(long_drain_program(rng, 12000)) + "\n")
+            else:
+                f.write(json.dumps(rand_udp_program(rng)) + "\n")
+
+
+MC_UDP_TOPO = {"tick_ns": 10, "dmtu": 100,
+               "addrs": {"A1": {"nat": "", "out_lat": 1, "in_lat": 0}, "A2": {"nat": "X1", "out_lat": 1, "in_lat": 0},
+                         "B1": {"nat": "", "out_lat": 0, "in_lat": 1}},
+               "mtu": [{"a": "A1", "b": "B1", "m": 3}],
+               "nodes": {"N1": ["A1", "A2"], "N2": ["B1"]},
+               "socks": {"s1": "N1", "s2": "N1", "r1": "N2", "r2": "N2"}}
+
+
+def convert_mc_udp(src, dst):
+    n = 0
+    with open(src) as f, open(dst, "w") as o:
+        for line in f:
+            ops = []
+            for x in json.loads(line)["ops"]:
+                if x["op"] == "bind":
+                    ops.append({"t": x["t"], "op": "bind", "s": x["s"], "a": x["ep"][0], "p": x["ep"][1]})
+                elif x["op"] == "send":
+                    ops.append({"t": x["t"], "op": "send", "s": x["s"], "dst": ["B1", 7000], "bufs": [x["size"]]})
+                elif x["op"] == "recv":
+                    ops.append({"t": x["t"], "op": "recv", "s": x["s"], "style": x["style"], "bufs": [x["cap"]], "auto": False})
+                elif x["op"] in ("close", "open"):
+                    ops.append({"t": x["t"], "op": x["op"], "s": x["s"]})
+                elif x["op"] == "df":
+                    ops.append({"t": x["t"], "op": "df", "s": x["s"], "v": x["v"]})
+            o.write(json.dumps({"topo": MC_UDP_TOPO, "ops": ops}) + "\n")
+            n += 1
+    return n
+
+
+def classify_udp_reject(rj):
+    """(owner, signature) from the environment's inputs visible in the trace."""
+    lines = [json.loads(l) for l in rj["lines"]]
+    at = rj["at"]
+    ev = lines[at] if at < len(lines) else {"e": "<end>"}
+    cfg = lines[0]
+    mtu = {(m["a"], m["b"]): m["m"] for m in cfg.get("mtu", [])}
+    dmtu = cfg.get("dmtu", 1475)
+    nat = cfg.get("nat", {})
+    df, bound, sends = {}, {}, {}
+    arrived, lost = set(), set()
+    for o in lines[:at]:
+        if o["e"] == "Op" and o["op"] == "df":
+            df[o["s"]] = o["v"]
+        elif o["e"] == "Op" and o["op"] == "bind" and o.get("ec") == "ok":
+            bound[o["s"]] = (o["a"], o["p"])
+        elif o["e"] == "Op" and o["op"] == "close":
+            bound.pop(o["s"], None)
+        elif o["e"] == "Send":
+            src = bound.get(o["s"], ("?", 0))
+            m = mtu.get((src[0], o["dst"][0]), dmtu)
+            sends[o["id"]] = {"df": df.get(o["s"], False), "over": o["size"] > m, "src": src, "ok": o["ec"] == "ok" and o["ret"] > 0}
+        elif o["e"] == "Arrive":
+            arrived.add(o["id"])
+        elif o["e"] == "Lost":
+            lost.add(o["id"])
+    name = ev.get("e")
+    if name == "Send":
+        src = bound.get(ev["s"], ("?", 0))
+        m = mtu.get((src[0], ev["dst"][0]), dmtu)
+        if ev["size"] > m and ev["size"] <= 65535:
+            return "C20", "udp.send-result(oversize,df=%s)->%s" % (df.get(ev["s"], False), ev["ec"])
+        return "C08", "udp.send-result(size=%s)->%s/%s" % ("0" if ev["size"] == 0 else ">65535" if ev["size"] > 65535 else "n", ev["ret"] != 0, ev["ec"])
+    if name == "Arrive":
+        sd = sends.get(ev["id"])
+        if sd and sd["over"] and sd["df"]:
+            return "C20", "udp.df-oversize-datagram-delivered"
+        if not ev.get("whole", True):
+            return "C20" if sd and sd["over"] else "C08", "udp.datagram-altered-in-transit"
+        return "C08", "udp.unexpected-arrival(duplicate-or-reordered)"
+    if name == "Recv":
+        sd = sends.get(ev.get("id"))
+        if sd and ev.get("from"):
+            vis = [nat.get(sd["src"][0]) or sd["src"][0], sd["src"][1]]
+            if ev["from"] != vis:
+                return "C13", "udp.sender-endpoint(got %s want %s)" % (ev["from"], vis)
+        if ev.get("inline"):
+            return "C04", "udp.handler-inline"
+        return "C08", "udp.receive(id=%s,n=%s)" % ("?" if ev.get("id") == -1 else "k", "trunc" if sd is None else "n")
+    if name in ("End", "Lost"):
+        missing = [i for i, sd in sends.items() if sd["ok"] and i not in arrived and i not in lost and not (sd["over"] and sd["df"])]
+        if name == "End" and missing and all(sends[i]["df"] or sends[i]["over"] for i in missing):
+            return "C20", "udp.datagram-within-rules-not-delivered(df/oversize)"
+        return "C08", "udp.%s(undelivered-or-pending)" % name.lower()
+    if name in ("RecvAborted", "RecvErr", "Ready", "StartRecv"):
+        return "C08", "udp.%s" % name
+    return "C08", "udp.reject@" + str(name)
+
+
+def udp_pipeline(ctx, owner):
+    q = ctx.tier == "quick"
+    vlib.tlc_mc(ctx, "MCUdp.tla", "MC_Udp.cfg", timeout=900)
+    files = []
+    g = ctx.path("us_mc_raw.ndjson")
+    vlib.tlc_gen(ctx, "GenUdp.tla", "Gen_Udp.cfg", g, simulate=(150 if q else 3000, 60))
+    f1 = ctx.path("us_mc.ndjson")
+    convert_mc_udp(g, f1)
+    files.append(f1)
+    f2 = ctx.path("us_rand.ndjson")
+    rand_udp_programs(ctx.seed, 2500 if q else 60000, f2)
+    files.append(f2)
+    for f in files:
+        res, total, chunks = vlib.replay(ctx, "record-udp", f, keep=True, env={"VH_WALL_LIMIT": "900"})
+        bad = [r for r in res if not r.get("ok")]
+        cases = vlib.read_lines(f, [r["i"] for r in bad[:50]])
+        for r in bad:
+            ctx.violation("udp." + r["sig"], r.get("msg", ""), cases.get(r["i"], {"index": r["i"]}), {"subcmd": "record-udp"})
+        ctx.evaluations += len(res)
+        traces = [c + ".trace" for c in chunks if os.path.exists(c + ".trace")]
+        out = vlib.validate_traces(ctx, "TraceUdp.tla", "Trace_Udp.cfg", traces)
+        for (nruns, nev, rejected), tp in zip(out, traces):
+            ctx.traces += nruns
+            for rj in rejected:
+                own, sig = classify_udp_reject(rj)
+                if rj.get("invariant"):
+                    own, sig = "C08", "udp.invariant." + rj["invariant"]
+                if own == owner:
+                    ctx.violation(sig, "trace rejected at event %d: %s" % (rj["at"], rj["event"][:300]),
+                                  {"trace": rj["lines"][:400]}, {"kind": "trace", "module": "TraceUdp.tla", "cfg": "Trace_Udp.cfg"})
+                else:
+                    log("[%s] rejected run belongs to %s: %s" % (owner, own, sig))
+            with open(tp) as fh:
+                run = []
+                for line in fh:
+                    if line.startswith('{"e":"Cfg"'):
+                        run = []
+                    run.append(line)
+                    if line.startswith('{"e":"End"'):
+                        txt = "".join(run)
+                        if owner == "C08":
+                            nt = txt.count('"e":"Recv"') >= 1 and ('"op":"close"' in txt or txt.count('"e":"Recv"') >= 3 or "would_block" in txt)
+                        elif owner == "C13":
+                            nt = '"from":["X1"' in txt
+                        else:
+                            nt = '"op":"df"' in txt and '"e":"Send"' in txt
+                        if nt:
+                            ctx.nontrivial.add(hash(txt))
+                            ctx.add_sample([json.loads(x) for x in run[:18]])
+
+
+@check("C08", "model_checking")
+def c08(ctx):
+    ctx.rule = ("UDP programs (bind/close/re-open/rebind of destination sockets, sends of 0..65536 bytes in 1-3 buffers, bursts "
+                "against small send buffers, three receive styles with buffers smaller/larger than the datagram, NAT, "
+                "finite queues) from TLC random walks over MCUdp.tla and a seeded generator; executed on real udp sockets "
+                "in a scripted topology; the trace (send results, arrivals at the last hop, completions with bytes/"
+                "sender/payload check, losses) is validated by TLC against Udp.tla; non-trivial = >= 1 delivery plus a "
+                "close, >= 3 deliveries, or a would_block; distinct by trace text")
+    ctx.assumptions = ["time unit 10 ns (one byte at NIC rate); would_block left open in a 100-byte band",
+                       "datagram identity from the first two payload bytes; payload generated by a PRF and compared by the harness"]
+    udp_pipeline(ctx, "C08")
+
+
+# ---------------------------------------------------------------------------
+# TCP: C05 C06 C07 (+ TCP clauses of C13, C20)
+
+def tcp_topo(rng, lossy, nat):
+    def lat():
+        return rng.choice([0, 0, 100, 1000, rng.randint(0, 50000), rng.randint(0, 250000)])
+    mssv = rng.choice([1475, 1475, 1475, 500, 100, 3000, 37])
+    pair = rng.choice([1475, 500, 2000, 64]) if rng.random() < 0.4 else None
+    big = max(mssv, pair or 0)   # every finite queue can hold at least one full segment (C06)
+    def cap():
+        if not lossy:
+            return 0
+        return rng.choice([0, 0, big + 40, big + 41, 2 * big + 100, rng.randint(big + 40, 20000 + big), rng.randint(20000 + big, 1000000)])
+    def bw():
+        return rng.choice([0, 0, 0, 5000, 50000, 1000000, 50000000, rng.randint(5000, 50000000)])
+    addrs = {}
+    for a in ["A1", "A2", "B1"]:
+        addrs[a] = {"nat": "", "out_lat": lat(), "in_lat": lat(), "out_cap": cap(), "in_cap": cap(), "out_bw": bw(), "in_bw": bw()}
+    if nat in ("client", "both"):
+        addrs["A2"]["nat"] = "X1"
+    if nat in ("acceptor", "both"):
+        addrs["B1"]["nat"] = "X2"
+    topo = {"tick_ns": 1000, "dmtu": mssv, "addrs": addrs, "mtu": [],
+            "nodes": {"N1": ["A1"], "N3": ["A2"], "N2": ["B1"]}}
+    if pair:
+        topo["mtu"] += [{"a": "A1", "b": "B1", "m": pair}, {"a": "B1", "b": "A1", "m": pair}]
+    if rng.random() < 0.6:
+        topo["net"] = {"lat": lat(), "cap": cap(), "bw": bw()}
+    return topo, mssv
+
+
+def rand_tcp_program(rng):
+    lossy = rng.random() < 0.45
+    nat = rng.choice(["none", "none", "client", "acceptor", "both"])
+    topo, mssv = tcp_topo(rng, lossy, nat)
+    acceptors = {"l1": {"node": "N2", "addr": "B1", "port": 8000, "listen_at": 0}}
+    if rng.random() < 0.3:
+        acceptors["l2"] = {"node": "N2", "addr": "B1", "port": 8001, "listen_at": rng.choice([0, 0, 1000])}
+    nconn = rng.choice([1, 1, 1, 2, 3])
+    conns, ctl = [], []
+    for i in range(1, nconn + 1):
+        caddr = rng.choice(["A1", "A2"])
+        cnode = "N1" if caddr == "A1" else "N3"
+        acc = rng.choice(list(acceptors.keys()))
+        refuse = rng.random() < 0.08
+        total = min(rng.choice([0, 1, 100, mssv, mssv + 1, 3 * mssv, 10000, 60000, rng.randint(1, 200000)]), 300 * mssv)
+        back = min(rng.choice([0, 0, 1, 1000, rng.randint(1, 50000)]), 100 * mssv)
+        # keep the virtual duration of a run well inside 31 bits of microseconds
+        bws = [v for a in topo["addrs"].values() for v in (a["out_bw"], a["in_bw"]) if v] + \
+              ([topo["net"]["bw"]] if topo.get("net") and topo["net"]["bw"] else [])
+        if bws:
+            total = min(total, 20 * min(bws))
+            back = min(back, 20 * min(bws))
+        total = min(total, 120 * mssv)
+        back = min(back, 60 * mssv)
+        both = (not lossy) and rng.random() < 0.5
+        c2a = total if (both or rng.random() < 0.6) else 0
+        a2c = back if both else (0 if c2a else total)
+        def sizes():
+            lo = max(1, max(total, back) // 250)   # at most a few hundred write operations per stream
+            return [max(lo, rng.choice([1, 10, mssv // 2 or 1, mssv, mssv + 1, 2 * mssv + 7, 5 * mssv, 20000])) for _ in range(rng.randint(1, 4))]
+        def caps():
+            return [rng.choice([1, 3, mssv // 3 or 1, mssv, 3 * mssv, 10000, 65536]) for _ in range(rng.randint(1, 3))]
+        c = {"id": i, "client": "c%d" % i, "cnode": cnode, "caddr": caddr, "cport": rng.choice([0, 4000 + i]),
+             "acc": acc, "into": "a%d" % i, "form": rng.choice([1, 2, 3]),
+             "accept_at": max(rng.choice([0, 0, 5, 400000]), acceptors[acc]["listen_at"] + 1),
+             "connect_at": rng.choice([1, 1, 10, 1000]) + i,
+             "target": ["B1", acceptors[acc]["port"] if not refuse else 8099],
+             "c2a": {"bytes": c2a, "sizes": sizes(), "nbufs": rng.choice([1, 1, 2, 3])},
+             "a2c": {"bytes": a2c, "sizes": sizes(), "nbufs": rng.choice([1, 2])},
+             "cread": {"style": rng.choice(["read", "wait"]), "caps": caps()},
+             "aread": {"style": rng.choice(["read", "wait"]), "caps": caps()},
+             "close": rng.choice(["none", "client", "acceptor", "client"])}
+        conns.append(c)
+        if rng.random() < 0.5:
+            for _ in range(rng.randint(1, 4)):
+                ctl.append({"conn": i, "dir": rng.choice(["c2a", "a2c"]), "seq": rng.randint(0, 6),
+                            "nth": rng.choice([1, 1, 1, 2]), "drop": rng.random() < 0.7,
+                            "extra": rng.choice([1000, 50000, 300000])})
+    return {"topo": topo, "acceptors": acceptors, "conns": conns, "ctl": ctl}
+
+
+def rand_tcp_programs(seed, n, path):
+    import random
+    rng = random.Random(seed)
+    with open(path, "w") as f:
+        for k in range(n):
+            f.write(json.dumps(rand_tcp_program(rng)) + "\n")
+
+
+def classify_tcp_reject(rj):
+    lines = rj["lines"]
+    at = rj["at"]
+    try:
+        ev = json.loads(lines[at]) if at < len(lines) else {"e": "<end>"}
+    except ValueError:
+        ev = {"e": "<end>"}
+    cfg = json.loads(lines[0])
+    has_nat = any(v for v in cfg.get("nat", {}).values())
+    name = ev.get("e")
+    sj = rj.get("state_json") or {}
+    if ev.get("inline"):
+        return "C04", "tcp.handler-inline@" + str(name)
+    if name == "End":
+        det = []
+        for k, v in (sj.get("stall") or {}).items():
+            if v.get("rd"):
+                det.append("read-pending-with-data-queued")
+            if v.get("wr"):
+                det.append("writer-blocked-nothing-in-flight")
+            if v.get("lost"):
+                det.append("dropped-segment-never-resent")
+            if v.get("undeliv") and not (v.get("rd") or v.get("wr") or v.get("lost")):
+                det.append("bytes-not-delivered-to-reader")
+        if sj.get("owed"):
+            return "C04", "tcp.aborted-handler-never-invoked"
+        if sj.get("connects"):
+            det.append("connect-or-accept-not-completed")
+        return "C06", "tcp.quiescent(" + ",".join(sorted(set(det))) + ")"
+    if name in ("ReadDone", "ReadSome", "Ready"):
+        mss = {}
+        mysid = None
+        for l in lines[:at]:
+            if '"e":"Connect"' in l:
+                pass
+        sid = ev.get("sid", -1)
+        conn = ev.get("conn", 0)
+        if name != "Ready" and ev.get("ec") == "ok" and sid >= 0 and sid // 2 != conn:
+            return "C07", "tcp.data-of-another-connection-delivered"
+        if ev.get("ec") == "eof":
+            return "C05", "tcp.eof-before-all-data"
+        return "C05", "tcp.%s(ec=%s,sid=%s,off=%s)" % (name, ev.get("ec"), "ok" if sid >= 0 else "nomatch", "x")
+    if name == "Wire":
+        if ev.get("kind") == "payload" and ev.get("nth") == 1:
+            mss = None
+            for l in lines[:at]:
+                if l.startswith('{"e":"Connect"'):
+                    o = json.loads(l)
+                    if o["conn"] == ev.get("conn"):
+                        mss = o["mss"]
+            if mss is not None and ev.get("len", 0) > mss:
+                return "C20", "tcp.segment-larger-than-path-mtu(%s)" % ev.get("dir")
+            return "C05", "tcp.segment-sequence"
+        if ev.get("kind") == "payload":
+            return "C05", "tcp.retransmission-of-segment-not-dropped"
+        if ev.get("kind") in ("syn", "syn_ack"):
+            return "C07", "tcp.handshake(%s)" % ev.get("kind")
+        return "C05", "tcp.wire(%s)" % ev.get("kind")
+    if name == "ArriveSock":
+        if not ev.get("same", True):
+            return "C20", "tcp.segment-altered-in-transit"
+        if ev.get("kind") in ("syn", "syn_ack"):
+            return "C07", "tcp.handshake-arrival(%s)" % ev.get("kind")
+        return "C05", "tcp.arrival(%s)" % ev.get("kind")
+    if name in ("ConnectDone", "AcceptDone"):
+        if ev.get("ec") not in ("ok", "refused", "aborted"):
+            return "C07", "tcp.%s(ec=%s)" % (name, ev.get("ec"))
+        return ("C13" if has_nat else "C07"), "tcp.%s-endpoints-or-pairing(ec=%s)" % (name, ev.get("ec"))
+    if name == "WriteDone":
+        return "C05", "tcp.write-reported-bytes"
+    if name in ("Livelock", "Abandon"):
+        return "C06", "tcp.livelock"
+    return "C05", "tcp.reject@" + str(name)
+
+
+def tcp_pipeline(ctx, owner, n_quick=160, n_thorough=6000, extra_files=()):
+    q = ctx.tier == "quick"
+    f2 = ctx.path("ts_rand.ndjson")
+    rand_tcp_programs(ctx.seed, n_quick if q else n_thorough, f2)
+    files = [f2] + list(extra_files)
+    for f in files:
+        res, total, chunks = vlib.replay(ctx, "record-tcp", f, keep=True, env={"VH_WALL_LIMIT": "1500"})
+        bad = [r for r in res if not r.get("ok")]
+        cases = vlib.read_lines(f, [r["i"] for r in bad[:50]])
+        for r in bad:
+            sig = "tcp." + r["sig"]
+            own = "C06" if "livelock" in sig else "C12"
+            if own == owner or (owner in ("C05", "C06", "C07") and r["sig"].startswith("crash")):
+                ctx.violation(sig, r.get("msg", ""), cases.get(r["i"], {"index": r["i"]}), {"subcmd": "record-tcp"})
+        ctx.evaluations += len(res)
+        traces = [c + ".trace" for c in chunks if os.path.exists(c + ".trace")]
+        out = vlib.validate_traces(ctx, "TraceTcp.tla", "Trace_Tcp.cfg", traces)
+        for (nruns, nev, rejected), tp in zip(out, traces):
+            ctx.traces += nruns
+            for rj in rejected:
+                own, sig = classify_tcp_reject(rj)
+                if rj.get("invariant"):
+                    own, sig = "C05", "tcp.invariant." + rj["invariant"]
+                if own == owner:
+                    ln = rj["lines"]
+                    if len(ln) > 600:
+                        ln = ln[:40] + ["..."] + ln[max(0, rj["at"] - 300):rj["at"] + 3]
+                    ctx.violation(sig, "trace rejected at event %d: %s | spec: %s" % (rj["at"], rj["event"][:300], (rj.get("state") or "")[:600]),
+                                  {"trace": ln}, {"kind": "trace", "module": "TraceTcp.tla", "cfg": "Trace_Tcp.cfg"})
+                else:
+                    log("[%s] rejected run belongs to %s: %s" % (owner, own, sig))
+            with open(tp) as fh:
+                run = []
+                for line in fh:
+                    if line.startswith('{"e":"Cfg"'):
+                        run = []
+                    if len(run) < 4000:
+                        run.append(line)
+                    if line.startswith('{"e":"End'):
+                        txt = "".join(run)
+                        if owner == "C05":
+                            nt = '"e":"Drop"' in txt or '"ec":"eof"' in txt
+                        elif owner == "C06":
+                            nt = '"e":"Drop"' in txt and line.startswith('{"e":"End"}')
+                        elif owner == "C07":
+                            nt = txt.count('"e":"AcceptDone"') >= 1 and (txt.count('"e":"Connect"') >= 2 or '"ec":"refused"' in txt)
+                        elif owner == "C13":
+                            nt = '"X1"' in txt or '"X2"' in txt
+                        else:
+                            nt = '"kind":"payload"' in txt
+                        if nt:
+                            ctx.nontrivial.add(hash(txt))
+                            ctx.add_sample([json.loads(x) for x in run[:14]])
+
+
+@check("C05", "model_checking")
+def c05(ctx):
+    ctx.rule = ("TCP programs (1-3 connections over 1-2 acceptors, three accept forms, scatter/gather writes of random "
+                "sizes, async_read_some and wait+read_some readers with random buffer sizes, close by either side, NAT, "
+                "path MTUs, finite queues, injected drops/delays of chosen transmissions of the first segments) executed on "
+                "real sockets; the trace (API calls, completions with payload located in the PRF stream, first-hop and "
+                "last-hop segments, drop notifications, ACKs) is validated by TLC against Tcp.tla; non-trivial = run with "
+                "a drop or an EOF; distinct by trace text")
+    ctx.assumptions = ["payload bytes are a PRF of (connection, direction, offset); the harness locates every delivered block "
+                       "in the streams and logs (stream, offset); the specification decides whether that is the next block",
+                       "packet -> connection mapping from the channel end points seen in the SYN+ACK"]
+    vlib.tlc_mc(ctx, "MCTcpFlow.tla", "MC_TcpFlow.cfg", timeout=900)
+    tcp_pipeline(ctx, "C05")
+
+
+def tcp_drop_patterns(path):
+    """Exhaustive drop / delay patterns over the first segments of a single connection
+    (every subset of the first 4 data segments dropped once, each optionally twice, or delayed),
+    for both directions and both reader styles."""
+    import itertools
+    n = 0
+    with open(path, "w") as f:
+        for direction in ("c2a", "a2c"):
+            for style in ("read", "wait"):
+                for mask in range(16):
+                    for twice in (0, 1):
+                        for delayed in (None, 1, 2):
+                            ctl = []
+                            for k in range(4):
+                                if mask & (1 << k):
+                                    ctl.append({"conn": 1, "dir": direction, "seq": k, "nth": 1, "drop": True})
+                                    if twice and k == (mask.bit_length() - 1):
+                                        ctl.append({"conn": 1, "dir": direction, "seq": k, "nth": 2, "drop": True})
+                            if delayed is not None:
+                                ctl.append({"conn": 1, "dir": direction, "seq": delayed, "nth": 1, "drop": False, "extra": 70000})
+                            topo = {"tick_ns": 1000, "dmtu": 500,
+                                    "addrs": {"A1": {"nat": "", "out_lat": 1000, "in_lat": 500}, "B1": {"nat": "", "out_lat": 700, "in_lat": 300}},
+                                    "mtu": [], "net": {"lat": 10000, "cap": 0, "bw": 0}, "nodes": {"N1": ["A1"], "N2": ["B1"]}}
+                            w = {"bytes": 2750, "sizes": [1200, 300], "nbufs": 2}
+                            z = {"bytes": 0, "sizes": [1]}
+                            prog = {"topo": topo, "ctl": ctl, "acceptors": {"l1": {"node": "N2", "addr": "B1", "port": 8000}},
+                                    "conns": [{"id": 1, "client": "c1", "cnode": "N1", "caddr": "A1", "cport": 4001, "acc": "l1", "into": "a1",
+                                               "form": 1 + (mask % 3), "accept_at": 1, "connect_at": 5, "target": ["B1", 8000],
+                                               "c2a": w if direction == "c2a" else z, "a2c": w if direction == "a2c" else z,
+                                               "cread": {"style": style, "caps": [700, 90]}, "aread": {"style": style, "caps": [333]},
+                                               "close": "client" if direction == "c2a" else "acceptor"}]}
+                            f.write(json.dumps(prog) + "\n")
+                            n += 1
+    return n
+
+
+_c05_orig = c05
+
+
+@check("C05", "model_checking")
+def c05b(ctx):
+    ctx.rule = ("TCP programs (1-3 connections over 1-2 acceptors, three accept forms, scatter/gather writes of random "
+                "sizes, async_read_some and wait+read_some readers with random buffer sizes, close by either side, NAT, "
+                "path MTUs, finite queues, injected drops/delays) plus the exhaustive set of drop/delay patterns over the "
+                "first four segments (every subset dropped once, the last optionally twice, one delayed; both directions, "
+                "both read styles: 384 programs) executed on real sockets; the trace (API calls, completions with payload "
+                "located in the PRF stream, first-hop and last-hop segments, drop notifications, ACKs) is validated by TLC "
+                "against Tcp.tla; non-trivial = run with a drop or an EOF; distinct by trace text")
+    ctx.assumptions = ["payload bytes are a PRF of (connection, direction, offset); the harness locates every delivered block "
+                       "in the streams and logs (stream, offset); the specification decides whether that is the next block",
+                       "packet -> connection mapping from the channel end points seen in the SYN+ACK"]
+    vlib.tlc_mc(ctx, "MCTcpFlow.tla", "MC_TcpFlow.cfg", timeout=900)
+    f = ctx.path("ts_patterns.ndjson")
+    tcp_drop_patterns(f)
+    tcp_pipeline(ctx, "C05", n_quick=300, extra_files=[f])
+
+
+@check("C06", "model_checking")
+def c06(ctx):
+    ctx.rule = ("random TCP programs whose route configurations follow the quantifier (1-3 hops each way, bandwidth 0 or "
+                "5 kB/s - 50 MB/s, latency 0 - 250 ms per hop, capacity unlimited or from one full segment + 40 bytes up to "
+                "1 MB; payload one direction at a time when any queue is finite), drops produced by the queues themselves; "
+                "every run ends with the harness' view of pending operations and TLC accepts the End event only if none of "
+                "the three stall states holds, every accepted byte was delivered to a reader that keeps reading, every "
+                "connect to a listening acceptor with an accept outstanding completed; liveness of the implementation-shaped "
+                "model TcpFlow.tla is checked by TLC under weak fairness; non-trivial = run with >= 1 queue drop; distinct by trace")
+    ctx.assumptions = ["runs with injected (ctl) drops are outside the statement's preconditions and end with EndLoose",
+                       "in-flight / lost / deliverable are the specification's variables reconstructed from probe events"]
+    vlib.tlc_mc(ctx, "MCTcpFlow.tla", "MC_TcpFlow.cfg", timeout=900)
+    tcp_pipeline(ctx, "C06", n_quick=400)
+
+
+@check("C07", "model_checking")
+def c07(ctx):
+    ctx.rule = ("random TCP programs with 1-3 clients (two client nodes, one behind a NAT), 1-2 acceptors on one node, accepts "
+                "posted before or after the SYN arrives (chained per acceptor), all three accept forms, connects to endpoints "
+                "nobody listens on, close by either side; TLC validates SYN arrival order vs accept order, refusal after a "
+                "positive delay with no usable connection, the endpoint equations and that delivered bytes belong to the "
+                "stream of the same pair; non-trivial = >= 2 connects or a refusal; distinct by trace")
+    ctx.assumptions = ["connectors are bound explicitly before connecting (the implicit bind is C11's)"]
+    tcp_pipeline(ctx, "C07", n_quick=400)
+
+
+@check("C13", "model_checking")
+def c13(ctx):
+    ctx.rule = ("UDP and TCP programs with NAT hops in outgoing routes (none, client side, acceptor side, both, two nodes "
+                "behind one external address); TLC validates the sender endpoint of every datagram, the accepted socket's "
+                "remote endpoint, the peer endpoint reported by accept and the connector's view against the specification's "
+                "Visible(); non-trivial = run in which an external address is observed; distinct by trace")
+    ctx.assumptions = ["NAT hops only in outgoing routes, as the library's model prescribes"]
+    udp_pipeline(ctx, "C13")
+    tcp_pipeline(ctx, "C13", n_quick=250)
+
+
+@check("C20", "model_checking")
+def c20(ctx):
+    ctx.rule = ("UDP programs with don't-fragment set/cleared/untouched and datagram sizes around per-pair path MTUs; TCP "
+                "programs with path MTUs from 37 to 3000 bytes (symmetric tables) and write sizes around them; TLC validates "
+                "every first-hop segment length against the MSS fixed at connect time for both directions, that the last "
+                "hop sees the same (seq, len, digest) as the first, and the send_to results / deliveries of oversize datagrams; "
+                "non-trivial = run with payload segments (TCP) or a DF socket sending (UDP); distinct by trace")
+    ctx.assumptions = ["MTU tables are symmetric in the address pair"]
+    udp_pipeline(ctx, "C20")
+    tcp_pipeline(ctx, "C20", n_quick=250)
